@@ -96,3 +96,54 @@ Theorem multi_close_refuted_with_concurrency :
   let dss := mruns 2 4 [200; 200] in
   m_return 4 dss 0 = 0 /\ map (fun ds => done_at ds (m_return 4 dss 0)) dss = [0%nat; 0%nat].
 Proof. vm_compute. auto. Qed.
+
+(* ---- the log channel's old / new pair of executors (multi.rs spawn_futures_oldies_executor): the events sent before the pair was
+   created go to the `old` stream - which ends by itself at the split point - the later ones to the `new` stream. With
+   sequential_transition the new executor is spawned from the old executor's close callback, i.e. when the last old item future has
+   completed; otherwise both start at once. All events are sent at time 0. ---- *)
+Definition plain (durs : list Z) : list item := map (fun d => {| dur := d; fails := false |}) durs.
+Definition old_run (limit n_old : nat) (durs : list Z) : list done := run limit 0 0 (plain (firstn n_old durs)).
+Definition new_origin (sequential : bool) (limit n_old : nat) (durs : list Z) : Z := if sequential then finish_time (old_run limit n_old durs) else 0.
+Definition new_run (sequential : bool) (limit n_old : nat) (durs : list Z) : list done :=
+  schedule limit 0 0 (new_origin sequential limit n_old durs, []) (plain (skipn n_old durs)).
+Definition first_start (ds : list done) : Z := match ds with [] => -1 | d :: r => fold_right Z.min (istart d) (map istart r) end.
+Definition mlog_trace (sequential : bool) (limit n_old : nat) (durs : list Z) : list Z :=
+  let dso := old_run limit n_old durs in let dsn := new_run sequential limit n_old durs in
+  [2; 0; 90; 1; 0;  2; 0; 91; Z.of_nat (length dso); Z.of_nat (length dsn);
+   2; 0; 92; (match dso with [] => -1 | _ => finish_time dso end); first_start dsn;  2; 0; 93; 1; 1;  2; 0; 94; 1; 1;  9].
+
+Lemma intake_now limit now fl it : now <= fst (fst (intake limit 0 0 (now, fl) it)) /\ istart (snd (intake limit 0 0 (now, fl) it)) = fst (fst (intake limit 0 0 (now, fl) it)).
+Proof.
+  unfold intake. destruct (length fl <? limit)%nat.
+  - destruct (eff 0 0 it). cbn. split; [lia|reflexivity].
+  - destruct (pop_min fl) as [[m r]|]; destruct (eff 0 0 it); cbn; split; try lia; reflexivity.
+Qed.
+
+Lemma schedule_starts_after limit its : forall now fl d, In d (schedule limit 0 0 (now, fl) its) -> now <= istart d.
+Proof.
+  induction its as [|it r IH]; intros now fl d Hd; [contradiction|].
+  cbn [schedule] in Hd. pose proof (intake_now limit now fl it) as [H1 H2].
+  destruct (intake limit 0 0 (now, fl) it) as [[now' fl'] d0] eqn:E. cbn in H1, H2.
+  destruct Hd as [<-|Hd]; [lia|]. specialize (IH now' fl' d Hd). lia.
+Qed.
+
+(* C12, last clause, for every workload, split point and concurrency limit: with a sequential transition no new event starts before
+   every old event has been fully processed *)
+Theorem sequential_transition_orders_old_before_new limit n_old durs :
+  forall d_old d_new, In d_old (old_run limit n_old durs) -> In d_new (new_run true limit n_old durs) -> iend d_old <= istart d_new.
+Proof.
+  intros d_old d_new Ho Hn. unfold new_run in Hn. apply schedule_starts_after in Hn. cbn [new_origin] in Hn.
+  assert (iend d_old <= finish_time (old_run limit n_old durs)) by (apply fold_max_ge; now apply in_map). lia.
+Qed.
+
+(* no event is lost or duplicated by the split: old and new streams together process exactly the events sent *)
+Theorem old_new_split_is_exact sequential limit n_old durs :
+  (length (old_run limit n_old durs) + length (new_run sequential limit n_old durs) = length durs)%nat.
+Proof.
+  unfold old_run, new_run, run, plain. rewrite !schedule_length, !map_length. rewrite <- (firstn_skipn n_old durs) at 3. now rewrite app_length.
+Qed.
+
+(* without sequential_transition old and new events do overlap (so the ordering above is owed to the flag, not to the model) *)
+Example concurrent_transition_overlaps :
+  let durs := [30; 10] in exists d_old d_new, In d_old (old_run 1 1 durs) /\ In d_new (new_run false 1 1 durs) /\ istart d_new < iend d_old.
+Proof. eexists; eexists. vm_compute. split; [left; reflexivity|split; [left; reflexivity|reflexivity]]. Qed.
